@@ -183,15 +183,21 @@ func runCase(c tcase) (obs string, v *verdict, nontrivial bool) {
 			if !exportable(c.sess, o.path) {
 				unexportableSeen[o.pfx] = true
 			}
-			if !o.path.Static {
+			// siblings are judged on the policy's output (it may erase the difference between two paths), exported or not
+			if fp, reject := c.chain.Build().Process(aro.Pfx(o.pfx), o.path.Build()); !reject && !o.path.Static {
+				e, err := aro.Describe(fp)
+				if err != nil {
+					fail("malformed-policy-output", err.Error())
+					continue
+				}
 				if sibs[o.pfx] == nil {
 					sibs[o.pfx] = map[string]map[string]bool{}
 				}
-				k := siblingKey(o.path)
+				k := siblingKey(e)
 				if sibs[o.pfx][k] == nil {
 					sibs[o.pfx][k] = map[string]bool{}
 				}
-				sibs[o.pfx][k][o.path.AnnKey()] = true
+				sibs[o.pfx][k][e.AnnKey()] = true
 			}
 			lr.AddPath(aro.Pfx(o.pfx), o.path.Build())
 		case 'r':
